@@ -555,9 +555,8 @@ public:
   void rename(const variable_vector_t &from,
               const variable_vector_t &to) override {
     if (!is_bottom()) {
-      for (std::shared_ptr<base_domain_t> absval : m_packs.domains()) {
-        absval->rename(from, to);
-      }
+      // m_packs.rename also renames the variable in the base domain
+      // of its pack (uf_rename_element_in_domain)
       m_packs.rename(from, to);
     }
   }
